@@ -38,6 +38,11 @@ type PtrV struct {
 	Path []int      // struct field indices from root
 
 	global *ssa.Global // set for pointers to package-level variables
+
+	// castElem != nil: the pointer was obtained by reinterpreting a *[]U as *[]castElem through
+	// unsafe.Pointer (storage.Header typed views). Loads rescale off/len/cap by the size ratio;
+	// that the typed view aliases the byte store element-wise is a trusted assumption.
+	castElem types.Type
 }
 
 const (
@@ -117,7 +122,7 @@ func sortOf(t types.Type) string {
 		case u.Kind() == types.UntypedRune:
 			return "E_int32"
 		default:
-			return "E_" + u.Name()
+			return "E_" + types.Typ[u.Kind()].Name()
 		}
 	case *types.Pointer, *types.Signature, *types.Chan, *types.Map:
 		return SInt
@@ -271,5 +276,8 @@ func (u unsupportedErr) Error() string { return "unsupported: " + u.msg }
 func unsupported(msg string) error    { return unsupportedErr{msg} }
 
 func typeKey(t types.Type) string {
+	if b, ok := t.(*types.Basic); ok && b.Kind() != types.UnsafePointer && b.Kind() < types.UntypedBool {
+		return types.Typ[b.Kind()].Name() // byte -> uint8, rune -> int32
+	}
 	return sanitize(types.TypeString(t, func(p *types.Package) string { return p.Name() }))
 }
